@@ -142,6 +142,21 @@ theorem gene_names_safe (s : Str) (ops : List GOp) :
 theorem genes_meet_spec (ops : List GOp) : IdSpec.genesOk (runOps {} ops).cdss = true :=
   genesOk_of_runOps ops
 
+/-- reading a record (`Record.from_biopython`: gene / CDS features in file order, identifiers from
+    the qualifiers with biopython's line-break blanks removed from locus tags, a position-based name
+    when a CDS has none): either the record is rejected — and then only because two CDS features
+    share a location or a name that cannot be told apart as splice variants, never for a missing
+    identifier — or all its CDS features have pairwise distinct, legal names and pairwise distinct
+    locations (`IdSpec.genesOk`, the spec the driver runs on the implementation's record) -/
+theorem record_read_unique_or_rejected (feats : List BioFeat) :
+    (∀ s, fromBiopython {} feats = .ok s →
+      (s.cdss.map (·.1)).Nodup ∧ (s.cdss.map (·.2)).Nodup ∧ (∀ x ∈ s.cdss, ∀ bad ∈ illegalGeneChars, bad ∉ x.1) ∧
+      IdSpec.genesOk s.cdss = true) ∧
+    (∀ e, fromBiopython {} feats = .error e → e = .dupLocation ∨ e = .dupName) := by
+  refine ⟨fun s h => ?_, fun e h => fromBiopython_err feats h⟩
+  have hi := fromBiopython_inv feats h ⟨List.nodup_nil, List.nodup_nil⟩ (by simp)
+  exact ⟨hi.1.1, locs_nodup_of_keys hi.1.2, fun x hx bad hb hm => hi.2 x hx bad hm hb, genesOk_of_inv hi.1 hi.2⟩
+
 /-- the regenerated illegal-character tables still contain every character they contained when
     the property was written (path separator, blank, shell/GenBank metacharacters; for gene ids
     also tab / newline / carriage return): shrinking a table breaks this obligation -/
@@ -176,6 +191,15 @@ example : (runOps {} [.cds (.simple ⟨10, 40, .fwd⟩) (some "a:b".toList) none
                       .cds (.simple ⟨20, 50, .fwd⟩) (some "a_b".toList) none none,
                       .cds (.simple ⟨100, 130, .fwd⟩) (some "a b".toList) none none]).cdss.map (·.1) =
     ["a_b".toList, "a_b_e50adf46".toList] := by decide +kernel
+/-- reading: a locus tag with a line-break blank collides with its unbroken form and is renamed as a
+    splice variant; a CDS without identifiers is named after its position -/
+example : (fromBiopython {} [⟨true, .simple ⟨10, 40, .fwd⟩, some "a b".toList, none, none, false⟩,
+                             ⟨true, .simple ⟨20, 50, .fwd⟩, some "ab".toList, none, none, false⟩,
+                             ⟨true, .simple ⟨100, 130, .rev⟩, none, none, none, true⟩]).toOption.map
+            (fun s => s.cdss.map (·.1)) =
+    some ["ab".toList, "ab_e50adf46".toList, "pseudo100_130".toList] := by decide +kernel
+/-- `f"{crc:x}"` drops leading zero nibbles: seven hex digits here -/
+example : locationChecksum (.simple ⟨18, 45, .fwd⟩) = "cdea4e3".toList := by decide +kernel
 /-- D60 witness: the generated name is already there → input error `dupName` (used to be a bare `assert`) -/
 example : (match addCds (runOps {} [.cds (.simple ⟨100, 130, .fwd⟩) (some "geneX_e50adf46".toList) none none,
                                     .cds (.simple ⟨10, 40, .fwd⟩) (some "geneX".toList) none none])
